@@ -192,6 +192,16 @@ def classify(run, meta):
                                           for m in macros):
             kind = 'panic'
         if site_fn is None:
+            # e.g. "at the end of the function body" pointing at rewritten text (a generated helper call): the function around it
+            for sp in d.get('spans', []):
+                o = origin_of(meta, sp['file_name'], sp['line_start'])
+                if o and o.get('kind') == 'contract':
+                    continue
+                f = fn_of(meta, sp['file_name'], sp['line_start'])
+                if f:
+                    site_fn = f['qual']
+                    break
+        if site_fn is None:
             site_fn = clause_fn
         if site_fn is None:
             for sp in d.get('spans', []):
@@ -355,13 +365,14 @@ def _run(pid, P, tier, seed, scratch, t0):
     vacdir = os.path.join(scratch, 'vcrate_vacuity')
     cfgs = [True, False]
     demote = set()
+    drop = set()
     kani = None
     kani_started = False
     extra = []
-    for attempt in range(5):
+    for attempt in range(8):
         try:
-            meta = ann.annotate(REPO, contracts, vdir, demote=demote)
-            vmeta = ann.annotate(REPO, contracts, vacdir, vacuity=True, demote=demote)
+            meta = ann.annotate(REPO, contracts, vdir, demote=demote, drop=drop)
+            vmeta = ann.annotate(REPO, contracts, vacdir, vacuity=True, demote=demote, drop=drop)
         except (ann.Lost, ann.rustlex.LexError) as e:
             print('INCONCLUSIVE property=%s reason=lost-anchor detail=%s' % (pid, e))
             return 2
@@ -395,6 +406,10 @@ def _run(pid, P, tier, seed, scratch, t0):
                         o = origin_of(meta, cur['file_name'], cur['line_start'])
                         if f and f['qual'] not in demote and not f['qual'].startswith('test_'):
                             newly.add(f['qual'])
+                            break
+                        if f and f['qual'] in demote and f['qual'] not in drop and d.get('code') and o and o.get('kind') == 'contract':
+                            # already reduced to its contract and the contract itself does not type-check: drop it too
+                            drop.add(f['qual']); newly.add(f['qual'])
                             break
                         e2 = cur.get('expansion')
                         cur = e2.get('span') if e2 else None
@@ -439,7 +454,9 @@ def _run(pid, P, tier, seed, scratch, t0):
         elif f['fn'] in lost_local:
             why = 'a proof hint / normalisation of this function was lost: ' + lost_local[f['fn']][0][:160]
         elif f['fn'] in calls_unc:
-            why = 'calls %s, which is new and has no contract' % ', '.join(calls_unc[f['fn']])
+            dropped_ = set(meta['notes'].get('dropped', []))
+            why = 'calls %s, which %s' % (', '.join(calls_unc[f['fn']]), 'has a changed signature its contract no longer type-checks against (the contract was dropped)'
+                                         if set(calls_unc[f['fn']]) & dropped_ else 'is new and has no contract')
         if why:
             f['undecided'] = why
         kept.append(f)
@@ -613,7 +630,10 @@ def _run(pid, P, tier, seed, scratch, t0):
 
     # the verifier could not run on this tree at all (e.g. the contracts no longer type-check against a changed
     # representation): nothing is decided — but a concrete input that violates one of the property's clauses is still a violation
-    verifier_ran = all(((r['json'] or {}).get('verification-results') or {}).get('verified') is not None for r in runs[:2])
+    verifier_ran = all((((r['json'] or {}).get('verification-results') or {}).get('verified') or 0) + (((r['json'] or {}).get('verification-results') or {}).get('errors') or 0) > 0
+                       for r in runs[:2])
+    if os.environ.get('VERIF_DEBUG'):
+        print('DEBUG verifier_ran=%s violations=%d clauses=%d' % (verifier_ran, len(violations), len(clauses)))
     if not verifier_ran and not violations:
         try:
             import witness
@@ -629,6 +649,8 @@ def _run(pid, P, tier, seed, scratch, t0):
                           message='the verifier could not run on this tree; a concrete input violates clause %s' % c['id'],
                           rendered='\n'.join(i['message'] for i in inconclusive[:3]), repo_file=None, repo_line=None, expr='')
                 witness.find(pid, pf, REPO, scratch)
+                if os.environ.get('VERIF_DEBUG'):
+                    print('DEBUG fallback', fam_key, pf.get('witness_search'), pf.get('replayed'))
                 if pf.get('replayed'):
                     violations.append(pf)
                     break
